@@ -60,10 +60,10 @@ CLAIMED = {
             "Bounded model checking (exhaustive, solver-driven, of a discrete structure): every digraph on 3 nodes (all node orders) and every loop-free digraph on 4 nodes: SCCs are the mutual-reachability classes listed sinks-first, topological order iff acyclic, condensation edges exactly as defined; outside-neighbour and duplicate variants.",
             GEN_NOTE + " No numeric symbolic dimension in this property.", "DESIGN.md 4/C14"),
     "C15": ("symbolic execution of articulation_points/bridges/kcore (edge presence symbolic, k symbolic), pagerank (damping, tol symbolic Reals; polynomial obligations via z3 nlsat), louvain (resolution symbolic Real)",
-            "Bounded model checking: every undirected graph on 4-5 nodes vs. definition by deletion; PageRank on every loop-free 3-node digraph + named graphs for ALL damping in (0,1), tol>=1e-12, 2 iterations: non-negative, sums to 1, OPTIMAL satisfies the PageRank equation within n*tol; Louvain for ALL resolution>0: partition of the node set, reported modularity equals the partition's.",
+            "Bounded model checking: every undirected graph on 4-5 nodes vs. definition by deletion; PageRank on every loop-free 3-node digraph + named graphs (incl. neighbour lists pointing outside the node set) for ALL damping in (0,1), tol>=1e-12, 2 iterations: non-negative, sums to 1, OPTIMAL satisfies the PageRank equation within n*tol; Louvain for ALL resolution>0: partition of the node set, reported modularity equals the partition's.",
             GEN_NOTE, "DESIGN.md 4/C15"),
     "C16": ("symbolic execution of solve_knapsack (values unbounded symbolic Reals, weights/capacity enumerated) and solve_bin_pack (sizes and capacity symbolic Reals); optimal-label and 11/9 bound against explicit subset / set-partition enumeration via z3",
-            "Bounded model checking: knapsack n<=3 exhaustive over weights 0..3, capacity 0..5 (+sampled n=4, decimal grid) for ALL value vectors; bin packing n<=4, all four heuristics and aliases, ALL sizes/capacities.",
+            "Bounded model checking: knapsack n<=3 exhaustive over weights 0..3, capacity 0..5 (+sampled n=4, decimal grid, adversarial and dyadic exact-fill decimals) for ALL value vectors; bin packing n<=4, all four heuristics and aliases, ALL sizes/capacities.",
             GEN_NOTE, "DESIGN.md 4/C16"),
     "C17": ("symbolic execution of solve_cg (cutting stock and custom pricing) with the demand vector symbolic (Ints 0..8) and of solve_bp with solver-enumerated demand vectors; true minimum = z3 query for a cheaper non-negative integer combination of the full enumerated pattern set",
             "Bounded model checking: 14 cutting-stock instances (width<=10, <=3 sizes) for EVERY demand vector in 0..8 (cg) / 0..3 (bp), plus explicit column pools: patterns fit, every demand met, objective = rolls, OPTIMAL = true minimum.",
